@@ -110,7 +110,9 @@ def consume(recipes, producer_log, out):
     by_id = {r["id"]: r for r in recipes}
     local = {}
     with open(out, "w") as f, open(producer_log) as pl:
-        for line in pl:
+        # the consumer meets the objects in the OPPOSITE order: a persistent key is a function
+        # of the object alone, not of what this process has digested (hashed, compared) before
+        for line in reversed(list(pl)):
             pe = json.loads(line)
             r = by_id[pe["recipe"]]
             ev = dict(base("consumer"), recipe=r["id"], op="unpickle", proto=pe["proto"],
